@@ -123,7 +123,7 @@ def do_run(seed, props):
     finally:
         sh('git -C %s checkout -- .' % REPO)
     old = {}
-    rp = os.path.join(d, 'result.json')
+    rp = os.path.join(os.environ['SEED_RESULT_DIR'], seed + '.json') if os.environ.get('SEED_RESULT_DIR') else os.path.join(d, 'result.json')
     if os.path.exists(rp):
         old = json.load(open(rp))
     old.update(res)
